@@ -786,6 +786,65 @@ query getthem {
 }
 """)]
 
+# schema type names that differ only in letter case (legal GraphQL, legal distinct Python classes): isort orders import names
+# case-insensitively and keeps the incoming order on ties, so every import list fed from an unordered collection shows here
+_W14C_SDL = """
+type Query {
+  users(filter: UserFilter, other: Userfilter, third: USERFILTER, color: Color, shade: COLOR, tint: color): [User!]!
+  user(id: ID!): User
+}
+
+type Mutation {
+  paint(id: ID!, color: Color!, shade: COLOR!, tint: color!, filter: USERFILTER!): User
+}
+
+type User {
+  id: ID!
+  name: String!
+  color: Color
+  shade: COLOR
+  tint: color
+}
+
+enum Color { RED GREEN }
+enum COLOR { DARK LIGHT }
+enum color { WARM COLD }
+
+input UserFilter { name: String, color: Color }
+input Userfilter { id: ID, shade: COLOR }
+input USERFILTER { tint: color, nested: UserFilter }
+"""
+_W14C_OPS = """
+query ListUsers($filter: UserFilter, $other: Userfilter, $third: USERFILTER, $color: Color, $shade: COLOR, $tint: color) {
+  users(filter: $filter, other: $other, third: $third, color: $color, shade: $shade, tint: $tint) {
+    id
+    color
+    shade
+    tint
+  }
+}
+
+mutation Paint($id: ID!, $color: Color!, $shade: COLOR!, $tint: color!, $filter: USERFILTER!) {
+  paint(id: $id, color: $color, shade: $shade, tint: $tint, filter: $filter) {
+    id
+    tint
+    shade
+    color
+  }
+}
+
+query OneUser($id: ID!) {
+  user(id: $id) {
+    name
+    shade
+  }
+}
+"""
+W14 = W14 + [_world("W14c-schema-types-differing-only-in-case", _W14C_SDL, _W14C_OPS),
+             _world("W14d-case-only-types-used-only", _W14C_SDL, _W14C_OPS, {"include_all_inputs": False, "include_all_enums": False}),
+             _world("W14e-case-only-types-forward-refs", _W14C_SDL, _W14C_OPS,
+                    {"plugins": ["ariadne_codegen.contrib.client_forward_refs.ClientForwardRefsPlugin"]})]
+
 
 def all_worlds() -> List[dict]:
     return [W1, W2, W2b, W3, W4, W5, W7, W8, W9, W9k, W15] + W10 + W11 + W12 + W13 + W14
